@@ -462,8 +462,25 @@ class Executor:
             raise Inconclusive('function %s: %d bodies' % (name, len(fl)))
         return fl[0]
 
-    def blocks_calling(self, f, callee_re):
-        """blocks of f whose terminator is a call to something matching callee_re"""
+    def blocks_calling(self, f, callee_re, in_cycle=False):
+        """blocks of f whose terminator is a call to something matching callee_re (in_cycle: only blocks lying on a CFG cycle,
+        i.e. inside a loop -- a loop head is recognised by its call, not by its block number)"""
+        if in_cycle:
+            def cyc(bb):
+                seen, todo = set(), list(mir.successors(f, bb))
+                while todo:
+                    x = todo.pop()
+                    if x == bb:
+                        return True
+                    if x in seen or x == 'EXIT' or x not in f.blocks:
+                        continue
+                    seen.add(x)
+                    try:
+                        todo.extend(mir.successors(f, x))
+                    except MirSyntax:
+                        pass
+                return False
+            return [b for b in self.blocks_calling(f, callee_re) if cyc(b)]
         out = []
         pat = re.compile(callee_re)
         for bb, (stmts, term) in f.blocks.items():
